@@ -1004,6 +1004,192 @@ class _Rename(ast.NodeTransformer):
         return node
 
 
+# ------------------------------------------------------------------ P14 getattr with a constant name; a bound method held in a temporary
+class _GetattrConst(ast.NodeTransformer):
+    def visit_Call(self, c):
+        self.generic_visit(c)
+        if isinstance(c.func, ast.Name) and c.func.id == 'getattr' and len(c.args) == 2 and not c.keywords \
+                and isinstance(c.args[1], ast.Constant) and isinstance(c.args[1].value, str) and c.args[1].value.isidentifier():
+            return ast.copy_location(ast.Attribute(value=c.args[0], attr=c.args[1].value, ctx=ast.Load()), c)
+        return c
+
+
+def bound_method_temporaries(tree):
+    """`t = x.m` directly followed by the only use of t, a call `t(...)`, with t assigned nowhere else: the call is written x.m(...)"""
+    n = 0
+    for fn in ast.walk(tree):
+        if not isinstance(fn, (ast.FunctionDef, ast.AsyncFunctionDef)):
+            continue
+        stores, loads = {}, {}
+        for x in ast.walk(fn):
+            if isinstance(x, ast.Name):
+                (stores if isinstance(x.ctx, (ast.Store, ast.Del)) else loads).setdefault(x.id, []).append(x)
+        for blk_owner in ast.walk(fn):
+            for _nm, blk in _blocks(blk_owner):
+                i = 0
+                while i + 1 < len(blk):
+                    st, nx = blk[i], blk[i + 1]
+                    if isinstance(st, ast.Assign) and len(st.targets) == 1 and isinstance(st.targets[0], ast.Name) \
+                            and isinstance(st.value, ast.Attribute) and isinstance(st.value.value, ast.Name):
+                        t = st.targets[0].id
+                        uses = loads.get(t, [])
+                        if len(stores.get(t, [])) == 1 and len(uses) == 1:
+                            callee = [c for c in ast.walk(nx) if isinstance(c, ast.Call) and c.func is uses[0]]
+                            first = next((x for x in ast.walk(nx) if isinstance(x, (ast.Call, ast.Name))), None)
+                            if callee and isinstance(nx, (ast.Expr, ast.Assign, ast.Return)) and (
+                                    (isinstance(nx, ast.Expr) and nx.value is callee[0]) or (not isinstance(nx, ast.Expr) and nx.value is callee[0])):
+                                callee[0].func = st.value
+                                del blk[i]
+                                n += 1
+                                continue
+                    i += 1
+    return n
+
+
+# ------------------------------------------------------------------ P13 a record class that did not exist then is the dict it replaced
+def records_to_dicts(tree, new_names):
+    """P13.  `class C(NamedTuple)` with plain fields, new since the baseline, whose instances are only built (C(...), x._replace(...)),
+    stored, handed on and read field by field: every instance becomes the dict {'field': value}, `x.f` becomes x['f'] and
+    `x._replace(f=v)` becomes dict(x, f=v).  Reading a field of an immutable record and reading a key of a dict that nobody writes
+    are the same observation.  Anything else done with an instance (unpacking, iteration, indexing by position, comparison, a call
+    that receives it) leaves the module untouched.  Returns the number of classes rewritten."""
+    classes = {}
+    for st in tree.body:
+        if isinstance(st, ast.ClassDef) and st.name in new_names and not st.decorator_list and not st.keywords \
+                and any(ast.unparse(b).split('.')[-1] == 'NamedTuple' for b in st.bases):
+            fields, ok, defaults = [], True, {}
+            for x in _strip_doc(st.body):
+                if isinstance(x, ast.AnnAssign) and isinstance(x.target, ast.Name):
+                    fields.append(x.target.id)
+                    if x.value is not None:
+                        defaults[x.target.id] = x.value
+                elif isinstance(x, ast.Pass):
+                    continue
+                else:
+                    ok = False
+            if ok and fields:
+                classes[st.name] = (fields, defaults, st)
+    if not classes:
+        return 0
+    allfields = {f for c in classes.values() for f in c[0]}
+    parent = {}
+    for p_ in ast.walk(tree):
+        for c in ast.iter_child_nodes(p_):
+            parent[id(c)] = p_
+
+    def is_ctor(e):
+        if not (isinstance(e, ast.Call) and isinstance(e.func, ast.Name) and e.func.id in classes):
+            return False
+        if not e.args and len(e.keywords) == 1 and e.keywords[0].arg is None:
+            return True      # C(**row): row supplies exactly the fields, or every use of the table fails with a TypeError
+        return not any(isinstance(a, ast.Starred) for a in e.args) and not any(k.arg is None for k in e.keywords)
+
+    # names that hold records (flow-insensitive, whole module: module constants, locals, loop variables over record containers)
+    rec, cont = set(), set()
+    for _ in range(6):
+        n0 = (len(rec), len(cont))
+        for n in ast.walk(tree):
+            if isinstance(n, (ast.Assign, ast.AnnAssign)) and n.value is not None:
+                tg = n.targets if isinstance(n, ast.Assign) else [n.target]
+                v = n.value
+
+                def is_rec(e):
+                    return is_ctor(e) or (isinstance(e, ast.Name) and e.id in rec) or (
+                        isinstance(e, ast.Call) and isinstance(e.func, ast.Attribute) and e.func.attr == '_replace'
+                        and isinstance(e.func.value, ast.Name) and e.func.value.id in rec) or (
+                        isinstance(e, ast.Subscript) and isinstance(e.value, ast.Name) and e.value.id in cont) or (
+                        isinstance(e, ast.Call) and isinstance(e.func, ast.Attribute) and e.func.attr == 'get'
+                        and isinstance(e.func.value, ast.Name) and e.func.value.id in cont and len(e.args) == 1) or (
+                        isinstance(e, ast.IfExp) and is_rec(e.body) and is_rec(e.orelse))
+                for t in tg:
+                    if isinstance(t, ast.Name) and is_rec(v):
+                        rec.add(t.id)
+                    elif isinstance(t, ast.Subscript) and isinstance(t.value, ast.Name) and is_rec(v):
+                        cont.add(t.value.id)
+                    elif isinstance(t, ast.Name) and isinstance(v, ast.Name) and v.id in cont:
+                        cont.add(t.id)
+                    elif isinstance(t, ast.Name) and isinstance(v, (ast.Dict,)) and v.values and all(is_rec(x) for x in v.values):
+                        cont.add(t.id)
+                    elif isinstance(t, ast.Name) and isinstance(v, ast.DictComp) and is_rec(v.value):
+                        cont.add(t.id)
+        if (len(rec), len(cont)) == n0:
+            break
+    # every use of a field attribute must be on a record name; every use of a record name must be one of the harmless kinds
+    in_annotation = set()
+    for n in ast.walk(tree):
+        for a in ([n.annotation] if isinstance(n, (ast.AnnAssign, ast.arg)) and n.annotation is not None else []) + \
+                ([n.returns] if isinstance(n, ast.FunctionDef) and n.returns is not None else []):
+            in_annotation |= {id(x) for x in ast.walk(a)}
+    for n in ast.walk(tree):
+        if id(n) in in_annotation:
+            continue
+        if isinstance(n, ast.Attribute) and n.attr in allfields:
+            if not (isinstance(n.value, ast.Name) and n.value.id in rec and isinstance(n.ctx, ast.Load)):
+                return 0
+        if isinstance(n, ast.Name) and n.id in classes:
+            par = parent.get(id(n))
+            if isinstance(par, ast.Call) and par.func is n and is_ctor(par):
+                continue
+            if isinstance(par, ast.ClassDef):
+                continue
+            return 0
+        if isinstance(n, ast.Name) and n.id in rec and isinstance(n.ctx, ast.Load):
+            par = parent.get(id(n))
+            if isinstance(par, ast.Attribute) and (par.attr in allfields or par.attr == '_replace'):
+                continue
+            if isinstance(par, (ast.Assign, ast.AnnAssign, ast.Return, ast.IfExp)):
+                continue
+            if isinstance(par, ast.Compare) and len(par.ops) == 1 and isinstance(par.ops[0], (ast.Is, ast.IsNot)):
+                continue
+            if isinstance(par, ast.Dict):
+                continue
+            return 0
+    # annotations that name the class go (they say nothing at run time)
+    for n in ast.walk(tree):
+        if isinstance(n, ast.arg) and n.annotation is not None and any(isinstance(x, ast.Name) and x.id in classes for x in ast.walk(n.annotation)):
+            n.annotation = None
+        if isinstance(n, ast.FunctionDef) and n.returns is not None and any(isinstance(x, ast.Name) and x.id in classes for x in ast.walk(n.returns)):
+            n.returns = None
+
+    class T(ast.NodeTransformer):
+        def visit_Call(self, c):
+            self.generic_visit(c)
+            if is_ctor(c) and not c.args and len(c.keywords) == 1 and c.keywords[0].arg is None:
+                return ast.copy_location(ast.Call(func=ast.Name(id='dict', ctx=ast.Load()), args=[c.keywords[0].value], keywords=[]), c)
+            if is_ctor(c):
+                fields, defaults, _ = classes[c.func.id]
+                vals = dict(zip(fields, c.args))
+                for k in c.keywords:
+                    vals[k.arg] = k.value
+                for f in fields:
+                    if f not in vals and f in defaults:
+                        vals[f] = copy.deepcopy(defaults[f])
+                if set(vals) != set(fields):
+                    return c
+                return ast.copy_location(ast.Dict(keys=[ast.Constant(value=f) for f in fields], values=[vals[f] for f in fields]), c)
+            if isinstance(c.func, ast.Attribute) and c.func.attr == '_replace' and isinstance(c.func.value, ast.Name) and c.func.value.id in rec:
+                return ast.copy_location(ast.Call(func=ast.Name(id='dict', ctx=ast.Load()), args=[c.func.value], keywords=c.keywords), c)
+            return c
+
+        def visit_Attribute(self, a):
+            self.generic_visit(a)
+            if a.attr in allfields and isinstance(a.value, ast.Name) and a.value.id in rec and isinstance(a.ctx, ast.Load):
+                return ast.copy_location(ast.Subscript(value=a.value, slice=ast.Constant(value=a.attr), ctx=ast.Load()), a)
+            return a
+
+        def visit_AnnAssign(self, n):
+            self.generic_visit(n)
+            if any(isinstance(x, ast.Name) and x.id in classes for x in ast.walk(n.annotation)):
+                if n.value is None:
+                    return None
+                return ast.copy_location(ast.Assign(targets=[n.target], value=n.value), n)
+            return n
+    T().visit(tree)
+    tree.body[:] = [st for st in tree.body if not (isinstance(st, ast.ClassDef) and st.name in classes)]
+    ast.fix_missing_locations(tree)
+    return len(classes)
+
+
 # ------------------------------------------------------------------ P12 a module that did not exist then is folded back into its importer
 def _resolve_from(rel, node):
     """rel path of the module an ImportFrom in module `rel` names, or None"""
@@ -1148,10 +1334,20 @@ def normalise_source(src, rel, baseline, cf=None, lookups=True, renames=None, fo
     new_consts = set(consts) - set(base['constants']) if base else set()
     changed = n_ren
     if new_fns:
+        try:
+            changed += records_to_dicts(tree, new_fns)
+        except (ValueError, RecursionError):
+            pass
+        fns, consts = module_names(tree)
+        new_fns = set(fns) - set(base['functions']) if base else set(fns)
+        new_consts = set(consts) - set(base['constants']) if base else set()
+    if new_fns:
         changed += Inliner(tree, new_fns, folded_names).run()
     if new_consts:
         changed += subst_new_constants(tree, {c for c in new_consts if '.' not in c})
     before = ast.dump(tree)
+    _GetattrConst().visit(tree)
+    bound_method_temporaries(tree)
     PercentFormats().visit(tree)
     MembershipDisplays().visit(tree)
     if lookups:
